@@ -1,6 +1,9 @@
 #!/bin/bash
-i=$1; d=/tmp/wt4_c$i; cd /verif
-for n in 1 2; do if [ -f $d/SEED${n}_patch.diff ]; then t=seeded/C$i-$((n+6)); mkdir -p $t; cp $d/SEED${n}_patch.diff $t/patch.diff; cp $d/SEED${n}_demo.py $t/demo.py; cp $d/SEED${n}_notes.md $t/notes.md; fi; done
-for n in 1 2 3 4; do if [ -f $d/SAFE${n}_patch.diff ]; then t=benign/C$i-$((n+6)); mkdir -p $t; cp $d/SAFE${n}_patch.diff $t/patch.diff; cp $d/SAFE${n}_notes.md $t/notes.md; fi; done
-/venv/bin/python tools/seeded_eval.py C$i-7 C$i-8 2>&1 | grep -v conda
-/venv/bin/python tools/seeded_eval.py --benign C$i-7 C$i-8 C$i-9 C$i-10 2>&1 | grep -v conda
+# usage: import_round.sh <NN> <worktree dir> <seed offset> <benign offset>
+# copies SEED{1,2}_* to seeded/C<NN>-<offset+n> and SAFE{1..4}_* to benign/C<NN>-<offset+n>, then evaluates them
+i=$1; d=$2; so=$3; bo=$4; cd /verif
+S=""; B=""
+for n in 1 2; do if [ -f $d/SEED${n}_patch.diff ]; then t=seeded/C$i-$((n+so)); mkdir -p $t; cp $d/SEED${n}_patch.diff $t/patch.diff; cp $d/SEED${n}_demo.py $t/demo.py; cp $d/SEED${n}_notes.md $t/notes.md; S="$S C$i-$((n+so))"; fi; done
+for n in 1 2 3 4; do if [ -f $d/SAFE${n}_patch.diff ]; then t=benign/C$i-$((n+bo)); mkdir -p $t; cp $d/SAFE${n}_patch.diff $t/patch.diff; cp $d/SAFE${n}_notes.md $t/notes.md; B="$B C$i-$((n+bo))"; fi; done
+[ -n "$S" ] && /venv/bin/python tools/seeded_eval.py $S 2>&1 | grep -v conda
+[ -n "$B" ] && /venv/bin/python tools/seeded_eval.py --benign $B 2>&1 | grep -v conda
